@@ -18,7 +18,7 @@ ASSUMPTIONS = {
 }
 REQUIRED = {
     "C06": ["steps_compared", "single_word_cases", "program_cases", "self_modified_executed", "brz_taken", "opcode_alias_executed", "pc_wrap_steps", "selfmod_last_reexecuted", "selfmod_body_reexecuted", "loads_into_reused_simulation"],
-    "C19": ["words_round_tripped", "sources_compared", "label_refs", "array_vars", "doc_examples", "sources_with_other_memory_size", "over_wide_operands_encoded"],
+    "C19": ["words_round_tripped", "sources_compared", "label_refs", "array_vars", "doc_examples", "sources_with_other_memory_size", "over_wide_operands_encoded", "tight_memory_sources"],
     "C20": ["boundary_snapshots_compared", "illegal_calls_checked", "calls_after_done", "first_halves", "second_halves", "single_steps", "empty_program_call_strings"],
 }
 
@@ -207,7 +207,7 @@ ACCS = [0, 1, 0x7FFF, 0x8000, 0xFFFF]
 # ------------------------------------------------------------------------------------------ C19 assembler AST
 
 
-def gen_source(rng, size=4096):
+def gen_source(rng, size=4096, tight=False):
     """AST -> (text, expected image {addr: word}, expected max_pc, stats); size = number of memory words"""
     case_of = lambda m: rng.choice([m, m.lower(), m.capitalize()])
     nv = rng.randint(0, 4)
@@ -219,11 +219,27 @@ def gen_source(rng, size=4096):
             arrays += 1
         top -= len(vals)
         a = top + 1
-        variables.append(("v%d" % i if rng.random() < 0.7 else "_Var_%d" % i, vals, a))
+        vname = "v%d" % i if rng.random() < 0.7 else "_Var_%d" % i
+        if rng.random() < 0.08 and not any(v_[0].lower() in ("inc", "dec", "or", "not") for v_ in variables):
+            vname = ["inc", "dec", "Or", "not"][i % 4]  # the documented grammar reserves no names
+        variables.append((vname, vals, a))
         for k, v in enumerate(vals):
             img[a + k] = v % 65536
     n = rng.randint(0, 14)
+    used = sum(len(v_[1]) for v_ in variables)
+    while used > size - 1 and variables:  # the generated program must fit
+        nm_, vals_, a_ = variables.pop()
+        used -= len(vals_)
+        for k_ in range(len(vals_)):
+            img.pop(a_ + k_, None)
+        nv -= 1
+    arrays = sum(1 for v_ in variables if len(v_[1]) > 1)
+    n = min(n, size - used)
+    if tight and size <= 64:
+        n = max(0, size - used - rng.choice([0, 0, 1]))  # exactly / almost full; stand-alone labels occupy nothing
     labels = ["L%d" % i if rng.random() < 0.7 else "lab_%d_x" % i for i in range(rng.randint(0, 3))]
+    if labels and rng.random() < 0.08 and not any(v_[0].lower() in ("zro", "nop", "add") for v_ in variables):
+        labels[0] = rng.choice(["zro", "Nop", "ADD"])
     pos = {l: rng.randint(0, n) for l in labels}
     sym = dict(pos)
     sym.update({nm: a for nm, _, a in variables})
@@ -596,7 +612,10 @@ def run_shard(spec, res):
         run_docs(res)
     elif k == "asm":
         for it in range(spec["n"]):
-            case = gen_source(rng, rng.choice([4096, 4096, 4096, 4096, 64, 256, 1000, 2048, 5000]))
+            sz = rng.choice([4096, 4096, 4096, 4096, 64, 256, 1000, 2048, 5000, 16, 24, 64])
+            case = gen_source(rng, sz, tight=sz <= 64 and rng.random() < 0.6)
+            if sz <= 64:
+                res.count("tight_memory_sources")
             guarded(run_case, prop, case, res)
             res.evaluations += 1
             if it < 1:
